@@ -38,5 +38,17 @@ def subchecks(tier):
          "discipline": 0.2, "routing_objects": 0.3, "self_loops": 0.4, "inf": 0.1, "server_priority": 0.15, "process_routing": 0.15}
     prof = S.Profile(ALLOWED, weights=w, required=("priorities", "prio_preempt"), numeric="mixed", max_nodes=3, max_classes=3,
                      plans=("max_time", "max_customers"), horizon=(5.0, 14.0), budget=600, load="heavy")
-    return [system_subcheck("system", prof, lambda spec: [PreemptivePriorities(spec)], nontrivial, classes=classes, obs=True, log=True,
+    # pre-emptive priorities at nodes with a non-pre-emptive schedule: servers finishing a customer after their shift are not interrupted, everybody
+    # on a server of the current shift is
+    wo = {"priorities": 1.0, "prio_preempt": 1.0, "schedule": 1.0, "sched_preempt": 0.0, "cc_waiting": 0.4, "batching": 0.3, "self_loops": 0.3, "discipline": 0.2,
+          "server_priority": 0.15}
+    over = S.Profile(list(wo), weights=wo, required=("priorities", "prio_preempt", "schedule"), numeric="grid", max_nodes=2, max_classes=3, plans=("max_time",),
+                     horizon=(8.0, 20.0), budget=600, load="heavy", long_service=0.5, max_c=2)
+    overtime = system_subcheck("overtime", over, lambda spec: [PreemptivePriorities(spec)],
+                               lambda a, spec, res: a.get("preemptions", 0) >= 1 and a.get("states_with_overtime_service", 0) >= 1,
+                               classes=lambda a, spec, res: classes(a, spec, res) + (["overtime_service_seen"] if a.get("states_with_overtime_service") else []),
+                               obs=True, log=True, n={"quick": 3600, "thorough": 20000},
+                               rule="pre-emptive priorities at nodes with non-pre-emptive schedules (overtime servers are exempt from pre-emption, on-duty servers are not); "
+                                    "same monitor and audit")
+    return [overtime, system_subcheck("system", prof, lambda spec: [PreemptivePriorities(spec)], nontrivial, classes=classes, obs=True, log=True,
                             n={"quick": 7200, "thorough": 40000}, rule="pre-emption monitor + per-visit bookkeeping audit")]
